@@ -22,6 +22,11 @@ structure DState where
   nops : Nat := 0
   pending : Option (Nat × List String × String) := none  -- arena, op words, raw op text
   tol : Bool := false   -- mode `odt`: tolerant metrics comparison
+  /-- (arena, object) pairs whose value type has no drop glue (`alloc lockcell` / `alloc oncecell`:
+      `Lock<T>` needs `T: Copy`, an empty `OnceLock` holds nothing): the implementation has no
+      observable destructor run for them, so the model's `d<id>` event is left out of the `ev`
+      comparison.  Their `live` flag is still compared, in the `snap` section of every op. -/
+  nodrop : List (Nat × Nat) := []
 
 def sections (s : String) : List String :=
   (s.splitOn " | ").map (fun x => x.trimAscii.toString)
@@ -37,6 +42,16 @@ def modelObs (a : Arena) (ret : String) (logBefore stepsBefore : Nat) : List Str
   [ret ++ showErr c.err, showEvents evs, showSteps steps, showSnap a, showMet c.metrics ++ uf]
 
 def sectionNames : List String := ["ret", "ev", "steps", "snap", "met"]
+
+/-- Remove the `d<id>` events of arena `ai`'s drop-glue-free objects from an `ev` section. -/
+def hideUnobservableDrops (nodrop : List (Nat × Nat)) (ai : Nat) (ev : String) : String :=
+  let ws := (words ev).filter (fun w => !(nodrop.any (fun (a, i) => a == ai && w == s!"d{i}")))
+  if ws.isEmpty then "-" else " ".intercalate ws
+
+def hideInObs (nodrop : List (Nat × Nat)) (ai : Nat) (obs : List String) : List String :=
+  match obs with
+  | r :: ev :: rest => r :: hideUnobservableDrops nodrop ai ev :: rest
+  | _ => obs
 
 /-- `key=value` fields of a metrics section. -/
 def metFields (s : String) : List (String × String) :=
@@ -113,12 +128,16 @@ def handleObs (od : Bool) (st : DState) (lineNo : Nat) (obs : String) : IO DStat
           let lb := a.ctx.log.length
           let sb := a.ctx.steps.length
           let (a', ret) := a.step op
-          let model := modelObs a' ret lb sb
+          let nodrop := match ws, ret.toNat? with
+            | "alloc" :: "lockcell" :: _, some i => (ai, i) :: st.nodrop
+            | "alloc" :: "oncecell" :: _, some i => (ai, i) :: st.nodrop
+            | _, _ => st.nodrop
+          let model := hideInObs nodrop ai (modelObs a' ret lb sb)
           match compareObs od impl model st.tol with
           | some (s, i, m) => report s i m
           | none =>
             return { st with arenas := st.arenas.set! ai (some a'), ops := st.ops + 1,
-                             nops := st.nops + 1 }
+                             nops := st.nops + 1, nodrop := nodrop }
       | _ => report "arena" s!"{ai}" "no-such-arena"
 
 partial def loop (od : Bool) (h : IO.FS.Stream) (st : DState) (lineNo : Nat) : IO DState := do
@@ -127,7 +146,8 @@ partial def loop (od : Bool) (h : IO.FS.Stream) (st : DState) (lineNo : Nat) : I
   let l := line.trimAscii.toString
   if l.startsWith "seq " then
     let id := (words l).getD 1 "-"
-    loop od h { st with arenas := #[], seqId := id, ops := 0, diverged := false, pending := none }
+    loop od h { st with arenas := #[], seqId := id, ops := 0, diverged := false, pending := none,
+                        nodrop := [] }
       (lineNo + 1)
   else if l.startsWith "op " then
     match words l with
